@@ -6,9 +6,8 @@ run wipes-reordered-and-extra C16 C13 C04 C12 C01
 run always-normalise C01 C08 C09 C12 C13 C14 C19
 run registry-reordered C07 C09 C01 C13
 run table-free-field-arithmetic C02 C05 C01 C06 C20
-# (not C13: under a failing allocator this encode returns an empty phrase - a failure mode the abstract model of C13 does not have;
-#  the walks of C13 schedule allocation failures for every call and rightly report it)
-run encode-heap-temporary C15 C16 C03 C17 C20 C14
+# (encode-heap-temporary, once listed here, is not benign: with a heap temporary polyseed_encode fails when the allocator refuses,
+#  which the API cannot report; two independent agents later submitted the same change as a BREAKING one - seeded/C03-g, seeded/C17-f)
 run seed-struct-layout C13 C06 C04 C15 C16 C10
 # a (correct) hash index for the unsorted lists, built inside polyseed_inject and read-only afterwards: new writable statics, no race
 run lookup-index-built-at-inject C20 C08 C07 C13 C09
